@@ -28,6 +28,7 @@ type Engine struct {
 	guards       map[string]GuardDecl // "pkgpath.T.f" -> decl
 	assumptions  map[string]bool      // assumptions used in this run (for evidence)
 	verifDir     string
+	globalStored map[*ssa.Global]bool
 }
 
 func NewEngine(p *Program, verifDir string) (*Engine, error) {
